@@ -69,6 +69,26 @@ func probeO24() {
 	}
 }
 
+// probeO40: the stdlib function rand.read fills the Bytes value it is given IN PLACE; freeze leaves Bytes values
+// as they are (a script has no operation that writes into bytes), so a Bytes reachable from a frozen value
+// changes its contents. Reported under its own signature while it reproduces.
+func probeO40() {
+	src := "rand := import(\"rand\")\nx := freeze({b: bytes(4)})\nbefore := string(x.b)\nrand.seed(7)\nn := rand.read(x.b)\nafter := string(x.b)\nsame := before == after\n"
+	res.Count("finding-probe", "O40", true)
+	s := tengo.NewScript([]byte(src))
+	s.SetImports(stdlib.GetModuleMap("rand"))
+	c, err := s.Run()
+	if err != nil {
+		return // the call is rejected: the finding no longer reproduces
+	}
+	if v := c.Get("same"); v != nil && v.Value() == false {
+		res.Violate(lib.Violation{Signature: "frozen-bytes-overwritten-by-rand-read", Stream: "finding-probe",
+			Input:    "rand := import(\"rand\"); x := freeze({b: bytes(4)}); rand.read(x.b)",
+			Observed: "the bytes value inside the frozen map changed: " + lib.Canon(c.Get("after").Object()), Expected: "contents as before: " + lib.Canon(c.Get("before").Object()),
+			Oracle: "everything reachable from a frozen value keeps its contents (rand.read writes into its argument; freeze returns Bytes as they are)"})
+	}
+}
+
 // corpus: hand-written sequences run first (regressions of O4/O5/O5b on the object level, aliasing shapes).
 func corpusSeqs() [][]opRec {
 	lits := []opRec{{K: "lit", Lit: "i1"}, {K: "lit", Lit: "i2"}, {K: "lit", Lit: "i3"}, {K: "lit", Lit: "i0"}, {K: "lit", Lit: "i99"}, {K: "lit", Lit: "u"}}
@@ -116,6 +136,7 @@ func main() {
 	}
 	lib.RunProbes(res, "C09", f.Known)
 	probeO24()
+	probeO40()
 	if pf := os.Getenv("C09_PROF"); pf != "" {
 		fh, _ := os.Create(pf)
 		_ = pprof.StartCPUProfile(fh)
